@@ -272,6 +272,14 @@ def wl_pol(ctx, idx, rng):
         tol = 64 * eps * np.abs(P) + 1e-300
         if np.any(np.abs(a - b) > tol) or np.any(np.abs(a - c) > tol):
             ctx.violation(o, "Stokes parameters differ depending on the basis they are computed from", None, {"what": "basis_dependent"})
+        if use_dask:
+            # detected powers of different lazy signals evaluated in one graph (differences, concatenations of detected blocks)
+            its = []
+            for s_ in (lin, cir, sig):
+                it_, e_ = ctx.call(o, s_.to_intensity)
+                if e_ is None:
+                    its.append(it_)
+            monitors.joint_compute_check(ctx, o, its + [s1, s2], {"dask": True}, "to_intensity / to_stokes results of different signals")
         # I equals to_intensity summed over polarisations
         it, e7 = ctx.call(o, sig.to_intensity)
         if e7 is None:
@@ -306,6 +314,11 @@ def wl_pol(ctx, idx, rng):
                                   None, {"what": "component", "phase": phase})
                 if type(c1) is not pb.IntensitySignal or type(c2) is not pb.IntensitySignal:
                     ctx.violation(o, "Stokes component is not an IntensitySignal", None, {"what": "component_class"})
+                for c_ in (c1, c2):
+                    if isinstance(c_, pb.Signal) and isinstance(c_.data, da.Array) != isinstance(s0.data, da.Array):
+                        ctx.violation(o, f"Stokes component of a {type(s0.data).__name__}-backed signal is {type(c_.data).__name__}-backed "
+                                         "(the selection computed / changed the container)", None, {"what": "component_container"})
+                        break
             if phase == "fresh":
                 if isinstance(s0.data, da.Array):
                     break
